@@ -98,9 +98,19 @@ def expected(base, idx):
     return ("raised", b[8:]) if isinstance(b, str) and b.startswith("!raised:") else ("loaded", b)
 
 
+class StreamClosedByLoader(RuntimeError):
+    pass
+
+
 def load_bytes(xml: bytes, prefix, root="CCSDSPacket"):
     from space_packet_parser.xtce.definitions import XtcePacketDefinition
-    return XtcePacketDefinition.from_xtce(io.BytesIO(xml), xtce_ns_prefix=prefix, root_container_name=root)
+    stream = io.BytesIO(xml)
+    try:
+        return XtcePacketDefinition.from_xtce(stream, xtce_ns_prefix=prefix, root_container_name=root)
+    finally:
+        # the stream is the caller's: after the load (successful or not) it is still open, so that the caller can rewind it and load again
+        if stream.closed:
+            raise StreamClosedByLoader("from_xtce closed the stream it was handed")
 
 
 def load_form(xml: bytes, prefix, root, form: int):
